@@ -12,6 +12,8 @@ Families (each returns a list of case lines):
   outcomes    handler outcomes ok / error / negative ack for every QoS
   random      longer random sequences over everything
   qos2_flows  (mode 1) complete QoS 2 exchanges, id reuse at every stage, stray / repeated PUBREL
+  shutdown    (mode 1) waiting protocol-service calls and handlers, then a stop of every kind, then the
+              remaining completions (flush of buffered control messages during shutdown)
   ctl_stress  long runs that keep the connection alive: control packets through the
               BufferService(16)+InFlightService(1) pipeline, completions in / out of order
 """
@@ -385,6 +387,67 @@ def gen_ctl_stress(v, rng, n=6000):
     return cases
 
 
+def gen_shutdown(v, rng, n=4000):
+    """several protocol-service calls waiting (mode 1), handlers in flight, then something stops the
+    connection (violation, handler error, protocol-service error, DISCONNECT, unsolicited ack), then the
+    remaining completions: the flush of the buffered control messages during shutdown"""
+    cases = []
+    killers = [(1, 2, 1), (1, 6, 1, 3), pub(1, 1, 4), (1, 9, 0, 0), (1, 4, 6), (1, 3, 2), (1, 5, 2)]
+    if v == 5:
+        killers += [(1, 9, 0, 7), (1, 10), pub(1, 1, 0, alias=3), (1, 9, 4, 0)]
+    else:
+        killers += [(1, 10)]
+    for _ in range(n):
+        if v == 5:
+            cfg = (2, rng.choice([0, 0, 2]), 3, 0, 1)
+        else:
+            cfg = (2, 0, 0, rng.choice([0, 0, 2, 3]), 1)
+        okres = 2 if v == 3 else 0
+        ops = []
+        nh = 0
+        nc = 0
+        nid = 0
+        for _ in range(rng.randint(2, 7)):
+            r = rng.random()
+            if r < 0.35:
+                nid += 1
+                ops.append(pub(rng.choice([0, 1, 2]), nid, rng.randint(1, 3)))
+                nh += 1
+            elif r < 0.65:
+                ops.append((1, 8))
+                nc += 1
+            else:
+                nid += 1
+                ops.append((1, rng.choice([6, 7]), nid, 1))
+                nc += 1
+            if rng.random() < 0.15 and nc:
+                ops.append((3, rng.randint(1, nc), okres))
+            if rng.random() < 0.15 and nh:
+                ops.append((2, rng.randint(1, nh), 0))
+        k = rng.random()
+        if k < 0.5:
+            ops.append(rng.choice(killers))
+            if ops[-1][1] in (4, 6, 7, 8, 9, 10):
+                nc += 1
+        elif k < 0.75 and nh:
+            ops.append((2, rng.randint(1, nh), 1))
+        elif nc:
+            ops.append((3, rng.randint(1, nc), rng.choice([1, 1, 0])))
+        order_c = list(range(1, nc + 2))
+        order_h = list(range(1, nh + 1))
+        if rng.random() < 0.4:
+            rng.shuffle(order_c)
+        tail = [(3, c, rng.choice([okres, okres, 0, 1])) for c in order_c] + [(2, h, 0) for h in order_h]
+        if rng.random() < 0.5:
+            rng.shuffle(tail)
+        for t in tail[: rng.randint(0, len(tail))]:
+            ops.append(t)
+            if rng.random() < 0.2:
+                ops.append(rng.choice([(1, 8), pub(0, 0, 1), (1, 13)]))
+        cases.append(fmt(cfg, ops))
+    return cases
+
+
 def generate(v, rng, scale=1.0):
     cases = []
     cases += gen_alphabet(v, rng, full=scale >= 1.0)
@@ -395,6 +458,7 @@ def generate(v, rng, scale=1.0):
     cases += gen_random(v, rng, int(5000 * scale))
     cases += gen_qos2_flows(v, rng, int(4000 * scale))
     cases += gen_ctl_stress(v, rng, int(6000 * scale))
+    cases += gen_shutdown(v, rng, int(4000 * scale))
     seen = set()
     out = []
     for c in cases:
